@@ -269,11 +269,6 @@ theorem u64_rt (v : Nat) (h : v < 2 ^ 64) : leVal (u64le v) = v := leVal_leBytes
 theorem u32_rt (v : Nat) (h : v < 2 ^ 32) : leVal (u32le v) = v := leVal_leBytes 4 v (by simpa using h)
 theorem u16_rt (v : Nat) (h : v < 2 ^ 16) : leVal (u16le v) = v := leVal_leBytes 2 v (by simpa using h)
 
-/-- value ranges of the Rust field types -/
-def Entry.InRange (e : Entry) : Prop :=
-  e.simhash < 2 ^ 64 ∧ (∀ x ∈ e.topTerms, x < 2 ^ 32) ∧ e.termWeightSum < 2 ^ 16 ∧ e.flags < 2 ^ 16 ∧
-    e.lengthHint < 2 ^ 16
-
 theorem padTake_range (n : Nat) (l : List Nat) (B : Nat) (hB : 0 < B) (h : ∀ x ∈ l, x < B) :
     ∀ x ∈ padTake n l 0, x < B := by
   intro x hx
@@ -471,10 +466,6 @@ theorem writeTrack_length (t : Track) : (writeTrack t).length = HDR + t.entries.
   unfold writeTrack
   rw [List.length_append, headerBytes_length, flatMap_entryBytes_length, HDR_eq]
 
-/-- what the Rust types guarantee about a track: field widths, and the byte length fits a `u64` -/
-def Track.InRange (t : Track) : Prop :=
-  (∀ e ∈ t.entries, e.InRange) ∧ HDR + t.entries.length * t.variant.entrySize < 2 ^ 64
-
 theorem entrySize_pos (v : Variant) : 0 < v.entrySize := by cases v <;> decide
 
 theorem read_write_normal (t : Track) (pre post : Bytes) (L : Nat) (hr : t.InRange)
@@ -521,5 +512,213 @@ theorem smallFilter_eq_self_iff (f : Bytes) : smallFilter f = f ↔ f.length = F
   constructor
   · intro h; rw [← h, smallFilter_length, FS_eq]
   · intro h; simp [smallFilter, h, List.take_of_length_le (Nat.le_of_eq h)]
+
+/-! ### canonical tracks, reader errors -/
+
+theorem normEntry_eq_iff (v : Variant) (i : Nat) (e : Entry) : normEntry v i e = e ↔ (e.frameId = i ∧ e.Stored v) := by
+  cases e with
+  | mk fid sh tf tt tws fl lh =>
+    cases v
+    · simp only [normEntry, Entry.Stored, Entry.mk.injEq, padTake_eq_self_iff, smallFilter_eq_self_iff, true_and]
+      constructor
+      · rintro ⟨h1, h2, h3, h4, h5, h6⟩; exact ⟨h1.symm, h2, h3, h4.symm, h5.symm, h6.symm⟩
+      · rintro ⟨h1, h2, h3, h4, h5, h6⟩; exact ⟨h1.symm, h2, h3, h4.symm, h5.symm, h6.symm⟩
+    · simp only [normEntry, Entry.Stored, Entry.mk.injEq, padTake_eq_self_iff, true_and, and_true]
+      constructor
+      · rintro ⟨h1, h2, h3⟩; exact ⟨h1.symm, h2, h3⟩
+      · rintro ⟨h1, h2, h3⟩; exact ⟨h1.symm, h2, h3⟩
+    · simp only [normEntry, Entry.Stored, Entry.mk.injEq, padTake_eq_self_iff, true_and, and_true]
+      constructor
+      · rintro ⟨h1, h2, h3⟩; exact ⟨h1.symm, h2, h3⟩
+      · rintro ⟨h1, h2, h3⟩; exact ⟨h1.symm, h2, h3⟩
+
+theorem normFrom_eq_iff (v : Variant) (i : Nat) (es : List Entry) : normFrom v i es = es ↔ CanonFrom v i es := by
+  induction es generalizing i with
+  | nil => simp [normFrom, CanonFrom]
+  | cons e es ih => simp only [normFrom, CanonFrom, List.cons.injEq, normEntry_eq_iff, ih]
+
+theorem normalize_eq_iff (t : Track) : normalize t = t ↔ t.Canonical := by
+  cases t with
+  | mk v es => simp [normalize, Track.Canonical, normFrom_eq_iff]
+
+theorem normFrom_getElem? (v : Variant) (s : Nat) (es : List Entry) (i : Nat) :
+    (normFrom v s es)[i]? = (es[i]?).map (normEntry v (s + i)) := by
+  induction es generalizing s i with
+  | nil => simp [normFrom]
+  | cons e es ih =>
+    cases i with
+    | zero => simp [normFrom]
+    | succ i => simp only [normFrom, List.getElem?_cons_succ, ih]; congr 2; omega
+
+/-- `generate_sketch` output: filter of the variant's size (restated from C39_filter's proof) -/
+theorem generated_filter_length (hash : Bytes → Nat) (wt : Bytes → Nat → Nat) (frameId : Nat) (tokens : List Bytes)
+    (v : Variant) (e : Entry) (hg : generateSketch hash wt frameId tokens v = some e) :
+    e.termFilter.length = v.filterSize := by
+  unfold generateSketch at hg
+  split at hg
+  · cases hg; simp [Entry.new]
+  · obtain ⟨f, hb, hlen, _⟩ := bloom_no_fn ((computeTokenWeights hash wt tokens).map (·.1)) v.filterSize (filterSize_pos v)
+    simp only [hb] at hg
+    split at hg
+    · cases hg
+    · cases hg; exact hlen
+
+theorem wtNoIdf_pos (t : Bytes) (c : Nat) : 1 ≤ wtNoIdf t c := by
+  have h1 : WEIGHT_MIN = 1 := by decide
+  simp only [wtNoIdf, h1]; omega
+
+/-- `SketchTrack::insert` keeps the frame ids pairwise distinct (the hypothesis of `C39_track_full`) -/
+theorem insert_nodup (t : Track) (e : Entry) (h : (t.entries.map (·.frameId)).Nodup) :
+    ((t.insert e).entries.map (·.frameId)).Nodup := by
+  unfold Track.insert
+  split
+  · have : (t.entries.map fun x => if x.frameId = e.frameId then e else x).map (·.frameId) = t.entries.map (·.frameId) := by
+      rw [List.map_map]
+      apply List.map_congr_left
+      intro x _
+      simp only [Function.comp]
+      split
+      · rename_i hx; exact hx.symm
+      · rfl
+    simpa [this] using h
+  · rename_i hany
+    simp only [List.map_append, List.map_cons, List.map_nil]
+    rw [List.nodup_append]
+    refine ⟨h, by simp, ?_⟩
+    intro a ha b hb
+    simp only [List.mem_cons, List.not_mem_nil, or_false] at hb
+    subst hb
+    intro hab
+    apply hany
+    rw [List.any_eq_true]
+    obtain ⟨x, hx, rfl⟩ := List.mem_map.mp ha
+    exact ⟨x, hx, by simp [hab]⟩
+
+theorem readEntries_error (v : Variant) (n id : Nat) (data : Bytes) (e : RErr)
+    (h : readEntries v n id data = .error e) : e = .io := by
+  induction n generalizing id data with
+  | zero => simp [readEntries] at h
+  | succ n ih =>
+    unfold readEntries at h
+    split at h
+    · cases h; rfl
+    · split at h
+      · rename_i e' he; cases h; exact ih _ _ he
+      · cases h
+
+theorem ofEntrySize_some (n : Nat) (v : Variant) (h : Variant.ofEntrySize n = some v) : n = v.entrySize := by
+  unfold Variant.ofEntrySize at h
+  split at h
+  · cases h; assumption
+  · split at h
+    · cases h; assumption
+    · split at h
+      · cases h; assumption
+      · cases h
+
+/-- for the three valid entry sizes the addition can never be the operation that overflows -/
+theorem expectedLength_valid (c : Nat) (v : Variant) :
+    expectedLength c v.entrySize =
+      if c * v.entrySize ≥ 2 ^ 64 then .error (if READER_CHECKED_ARITH then .overflow else .panicMul)
+      else .ok (HDR + c * v.entrySize) := by
+  unfold expectedLength
+  split
+  · rfl
+  · rename_i h
+    have : ¬ (HDR + c * v.entrySize ≥ 2 ^ 64) := by
+      cases v <;> simp only [Variant.entrySize, ES_eq, EM_eq, EL_eq, HDR_eq] at h ⊢ <;> omega
+    rw [if_neg this]
+
+/-! ### `sortPairs` returns THE sorted permutation: the result of `compute_token_weights` does not depend
+    on the order in which the hash map yields the tokens, nor on the sorting algorithm -/
+
+theorem pairLe_total (a b : Nat × Nat) : pairLe a b = true ∨ pairLe b a = true := by
+  simp only [pairLe, Bool.or_eq_true, Bool.and_eq_true, decide_eq_true_eq, beq_iff_eq]
+  omega
+
+theorem pairLe_trans (a b c : Nat × Nat) (h1 : pairLe a b = true) (h2 : pairLe b c = true) : pairLe a c = true := by
+  simp only [pairLe, Bool.or_eq_true, Bool.and_eq_true, decide_eq_true_eq, beq_iff_eq] at *
+  omega
+
+theorem pairLe_antisymm (a b : Nat × Nat) (h1 : pairLe a b = true) (h2 : pairLe b a = true) : a = b := by
+  simp only [pairLe, Bool.or_eq_true, Bool.and_eq_true, decide_eq_true_eq, beq_iff_eq] at *
+  apply Prod.ext <;> omega
+
+theorem insertPair_perm (a : Nat × Nat) (l : List (Nat × Nat)) : (insertPair a l).Perm (a :: l) := by
+  induction l with
+  | nil => exact List.Perm.refl _
+  | cons b bs ih =>
+    simp only [insertPair]
+    split
+    · exact List.Perm.refl _
+    · exact (List.Perm.cons b ih).trans (List.Perm.swap a b bs)
+
+theorem sortPairs_perm (l : List (Nat × Nat)) : (sortPairs l).Perm l := by
+  induction l with
+  | nil => exact List.Perm.refl _
+  | cons a as ih => exact (insertPair_perm a _).trans (List.Perm.cons a ih)
+
+theorem insertPair_sorted (a : Nat × Nat) (l : List (Nat × Nat)) (h : SortedPairs l) : SortedPairs (insertPair a l) := by
+  induction l with
+  | nil => simp [insertPair, SortedPairs]
+  | cons b bs ih =>
+    unfold SortedPairs at h ih ⊢
+    rw [List.pairwise_cons] at h
+    simp only [insertPair]
+    split
+    · rename_i hab
+      rw [List.pairwise_cons]
+      refine ⟨?_, List.pairwise_cons.mpr h⟩
+      intro x hx
+      rcases List.mem_cons.mp hx with rfl | hx
+      · exact hab
+      · exact pairLe_trans _ _ _ hab (h.1 x hx)
+    · rename_i hab
+      have hba : pairLe b a = true := by
+        rcases pairLe_total a b with h' | h'
+        · exact absurd h' hab
+        · exact h'
+      rw [List.pairwise_cons]
+      refine ⟨?_, ih h.2⟩
+      intro x hx
+      rcases (mem_insertPair x a bs).mp hx with rfl | hx
+      · exact hba
+      · exact h.1 x hx
+
+theorem sortPairs_sorted (l : List (Nat × Nat)) : SortedPairs (sortPairs l) := by
+  induction l with
+  | nil => simp [sortPairs, SortedPairs]
+  | cons a as ih => exact insertPair_sorted a _ ih
+
+/-- two sorted lists with the same elements (as multisets) are equal -/
+theorem sorted_perm_unique (l1 l2 : List (Nat × Nat)) (h1 : SortedPairs l1) (h2 : SortedPairs l2)
+    (hp : l1.Perm l2) : l1 = l2 := by
+  induction l1 generalizing l2 with
+  | nil => exact (List.Perm.nil_eq hp)
+  | cons a t1 ih =>
+    cases l2 with
+    | nil => exact absurd hp.symm (by simp)
+    | cons b t2 =>
+      unfold SortedPairs at h1 h2
+      rw [List.pairwise_cons] at h1 h2
+      have hab : a = b := by
+        have ha : a ∈ b :: t2 := hp.mem_iff.mp (List.mem_cons_self)
+        have hb : b ∈ a :: t1 := hp.mem_iff.mpr (List.mem_cons_self)
+        rcases List.mem_cons.mp ha with h | h
+        · exact h
+        · rcases List.mem_cons.mp hb with h' | h'
+          · exact h'.symm
+          · exact pairLe_antisymm a b (h1.1 b h') (h2.1 a h)
+      subst hab
+      rw [ih t2 h1.2 h2.2 (List.Perm.cons_inv hp)]
+
+/-- **sortPairs is the unique sorted permutation** — any list that is sorted by the comparator of
+    `compute_token_weights` and is a permutation of the input (what Rust's `sort_by` returns, for any
+    iteration order of the hash map) equals the model's `sortPairs`. -/
+theorem sortPairs_unique (l r : List (Nat × Nat)) (hs : SortedPairs r) (hp : r.Perm l) : r = sortPairs l :=
+  sorted_perm_unique r (sortPairs l) hs (sortPairs_sorted l) (hp.trans (sortPairs_perm l).symm)
+
+theorem sortPairs_perm_invariant (l l' : List (Nat × Nat)) (hp : l.Perm l') : sortPairs l = sortPairs l' :=
+  sortPairs_unique l' (sortPairs l) (sortPairs_sorted l) ((sortPairs_perm l).trans hp)
 
 end Mv.Sketch
